@@ -8,12 +8,29 @@
    (C07_no_deadlock_dynamic).  That discipline is what the lock-order tracer (harness/h_lockord.c: every pthread lock
    operation of the library interposed, lock objects classified) checks on the real acquisition sequences of every
    API call in checks/C07.py, with the rank table read from coq/CC/LockOrder.v.
-   NOT proved (open goals, kept visible): `atomic_under_locks` (conflict serialisability of the data steps), the
-   worker-count / condition-variable handshake of exclusive sections, writer preference of the rwlocks, absence of
-   data races on store memory.  Those are sampled on the implementation: every concurrent execution must have a
-   linearisation (exact search) and must terminate. *)
+   PROVED (section model, CC/Sections.v): an operation is a sequence of critical sections run atomically, a context
+   switch can happen between any two of them.  If every store into the mapping is logged inside the section that made it
+   (publication discipline, WAL mode) and the two operations hold compatible outer locks with the database-lock
+   discipline, EVERY interleaving ends in the state of the serial order A;B and of B;A, with the same values read, and
+   the mapping still equals file + log (C07_sections_serialisable, C07_locks_give_noconflict); with incompatible outer
+   locks the lock-step system only produces serial runs; together: C07_two_ops_serialisable.  Without WAL no
+   publication hypothesis is needed.  The discipline is necessary: C07_unpublished_refuted (the store in one section,
+   its log record in the next - the shape of a `dlsnr->onwrite` moved behind `release_mmap`).
+   This is a theorem about the ABSTRACT section model (locations are per database, the allocator is a counter, physical
+   block placement is not modelled).  It is tied to the code by the preemption explorer (harness/h_preempt.c,
+   checks/c07_preempt.py): the lock events of the real operation are compiled into a model program (`compile`), the
+   model predicts for every hand-over point k whether a file growth by the other thread leaves mapping bytes that
+   differ from file + log (`stale_after`), and the prediction is compared with the implementation for every k.
+   C07_guarded_trace_never_stale: a trace whose log records are all written under a lock that excludes a remap predicts
+   "never"; C07_unguarded_trace_refuted: the trace of the unchanged _sblk_destroy predicts a stale byte at one k (and the
+   implementation shows it there).
+   NOT proved (open goals, kept visible): that the code's sections are atomic with respect to each other (absence of
+   data races on store memory inside critical sections), the worker-count / condition-variable handshake of exclusive
+   sections, writer preference of the rwlocks; more than two threads in the section model.  Those are sampled on the
+   implementation: every concurrent execution must have a linearisation (exact search) and must terminate. *)
 Require Import List ZArith Lia. Import ListNotations.
 Require Import IW.CC.KvLocks IW.CC.KvLocks_proofs IW.CC.LockOrder IW.CC.LockOrder_proofs.
+Require Import IW.CC.Sections IW.CC.Sections_proofs.
 
 Theorem C07_no_deadlock_partial :
   forall (calls : list (list req)) (s : state),
@@ -64,3 +81,89 @@ Example C07_blocked_example :
              {| held := [((1, 0), Rd)]; todo := [((2, 1), Rd)] |} ] in
   can_step s 1 = false /\ can_step s 0 = true.
 Proof. vm_compute. split; reflexivity. Qed.
+
+(* ---- operations as sequences of critical sections (CC/Sections.v) ---- *)
+Theorem C07_sections_serialisable :
+  forall (w : bool) (a b : prog) (l : list (bool * section)) (s0 : store),
+    inv s0 -> Forall (good w) a -> Forall (good w) b -> noconflict a b -> Interleave a b l ->
+    let c := exec w (start s0) l in
+    let cab := exec w (start s0) (tag false a ++ tag true b) in
+    let cba := exec w (start s0) (tag true b ++ tag false a) in
+    inv (cs c) /\
+    (same (cs c) (cs cab) /\ oa c = oa cab /\ ob c = ob cab) /\
+    (same (cs c) (cs cba) /\ oa c = oa cba /\ ob c = ob cba).
+Proof. exact sections_serialisable. Qed.
+Print Assumptions C07_sections_serialisable.
+
+Theorem C07_locks_give_noconflict :
+  forall A B : op, well_locked A -> well_locked B -> compatible (outer A) (outer B) = true -> noconflict (body A) (body B).
+Proof. exact locks_noconflict. Qed.
+Print Assumptions C07_locks_give_noconflict.
+
+(* any complete run of the lock-step system of two operations: the result of some serial order *)
+Theorem C07_two_ops_serialisable :
+  forall (w : bool) (A B : op) (sched : list bool) (s0 : store) (f : lcfg),
+    inv s0 -> Forall (good w) (body A) -> Forall (good w) (body B) -> well_locked A -> well_locked B ->
+    run_ops w A B sched s0 = Some f -> finished f = true ->
+    let cab := exec w (start s0) (tag false (body A) ++ tag true (body B)) in
+    let cba := exec w (start s0) (tag true (body B) ++ tag false (body A)) in
+    (same (cs (lc f)) (cs cab) /\ oa (lc f) = oa cab /\ ob (lc f) = ob cab) \/
+    (same (cs (lc f)) (cs cba) /\ oa (lc f) = oa cba /\ ob (lc f) = ob cba).
+Proof. exact two_ops_serialisable. Qed.
+Print Assumptions C07_two_ops_serialisable.
+
+(* the full statement WITHOUT the publication hypothesis is false in WAL mode: the store in one section, its log record
+   in the next, a file growth of the other thread in between - every other hypothesis holds (and the same programs are
+   fine without WAL) *)
+Theorem C07_unpublished_refuted :
+  exists a b l, noconflict a b /\ Interleave a b l /\ inv zero_store /\
+    (exists x, Forall (good false) a /\ ~ good true x /\ In x a) /\
+    mp (cs (exec true (start zero_store) l)) (0, 0) <> mp (cs (exec true (start zero_store) (tag false a ++ tag true b))) (0, 0) /\
+    mp (cs (exec true (start zero_store) l)) (0, 0) <> mp (cs (exec true (start zero_store) (tag true b ++ tag false a))) (0, 0) /\
+    ~ inv (cs (exec true (start zero_store) l)).
+Proof. exact unpublished_refuted. Qed.
+Print Assumptions C07_unpublished_refuted.
+
+(* lock-event traces of the implementation *)
+Theorem C07_guarded_trace_never_stale :
+  forall (tr : list ev) (k : nat), unguarded_logs tr = 0 -> stale_after true tr k = false.
+Proof. exact guarded_trace_never_stale. Qed.
+Print Assumptions C07_guarded_trace_never_stale.
+
+Theorem C07_nowal_never_stale : forall (tr : list ev) (k : nat), stale_after false tr k = false.
+Proof. exact nowal_never_stale. Qed.
+Print Assumptions C07_nowal_never_stale.
+
+Theorem C07_unguarded_trace_refuted : exists tr k, unguarded_logs tr = 1 /\ stale_after true tr k = true.
+Proof. exact unguarded_trace_refuted. Qed.
+Print Assumptions C07_unguarded_trace_refuted.
+
+(* Non-vacuity of the hypotheses: a put on database 0 (two published stores, an allocation that grows the file, a read)
+   and a put on database 1, store lock shared, database locks exclusive: well locked, compatible, published; a
+   schedule of the lock-step system that interleaves them runs to the end. *)
+Definition ex_put0 : op :=
+  {| outer := [((1, 0), KvLocks.Rd); (dblock 0, KvLocks.Wr)];
+     body := [[Get (0, 1)]; [Sto (0, 1) 5; Log (0, 1) 5; Grow 2]; [Sto (0, 2) 6; Log (0, 2) 6]] |}.
+Definition ex_put1 : op :=
+  {| outer := [((1, 0), KvLocks.Rd); (dblock 1, KvLocks.Wr)];
+     body := [[Sto (1, 1) 8; Log (1, 1) 8]; [Grow 4]] |}.
+Example C07_sections_example :
+  well_locked ex_put0 /\ well_locked ex_put1 /\ compatible (outer ex_put0) (outer ex_put1) = true /\
+  Forall (good true) (body ex_put0) /\ Forall (good true) (body ex_put1) /\ inv zero_store /\
+  (exists f, run_ops true ex_put0 ex_put1 [false; true; false; true; false] zero_store = Some f /\ finished f = true /\
+             mp (cs (lc f)) (0, 2) = 6%Z /\ mp (cs (lc f)) (1, 1) = 8%Z /\ fsz (cs (lc f)) = 6%Z).
+Proof.
+  split; [|split; [|split; [|split; [|split; [|split]]]]].
+  - unfold well_locked, ex_put0. simpl. repeat constructor; simpl; auto.
+  - unfold well_locked, ex_put1. simpl. repeat constructor; simpl; auto.
+  - reflexivity.
+  - repeat constructor.
+  - repeat constructor.
+  - intros l. reflexivity.
+  - eexists. split; [vm_compute; reflexivity|]. repeat split; vm_compute; reflexivity.
+Qed.
+(* two operations on the SAME database: the outer locks are incompatible, the lock-step system refuses to interleave *)
+Example C07_same_db_refused :
+  compatible (outer ex_put0) (outer ex_put0) = false /\
+  run_ops true ex_put0 ex_put0 [false; true] zero_store = None.
+Proof. split; vm_compute; reflexivity. Qed.
